@@ -2,15 +2,22 @@ from props import S
 
 CFG = {
     "properties_file": "Properties/C19.v",
-    "corr_files": ["Corr/RateLimitCorr.v", "Corr/C19.v"],
-    "streams": [S("C19", "drive_ratelimit", 180, 10000), S("C19ns", "drive_ratelimit", 90, 5000)],
+    "corr_files": ["Corr/RateLimitCorr.v", "Corr/C19.v", "Corr/C19c.v"],
+    "streams": [S("C19", "drive_ratelimit", 180, 10000), S("C19ns", "drive_ratelimit", 90, 5000),
+                S("C19c", "drive_ratelimit", 40, 1500)],
     "rule": "a RateLimiter (global {1,3,5,10,1000}/s, per-IP {1,3,10}/s burst {1,2,5}, per-connection off or {1,3,1000}/s) "
             "receives interleaved AllowRequest calls of 0-2 abusive clients (volleys of 1-5 calls at one instant, far above their "
             "own limits) and 1-3 compliant clients (paced by a shadow bucket so that they stay within their own limits), 15-70 "
             "scheduling steps, on the 2^-9 s grid (C19) or with arbitrary ns timings (C19ns). Compared: the admit bit of every "
             "call; oracle: every call of a client whose whole stream conforms to its per-IP and per-connection limits is admitted "
             "whenever a reference global bucket charged with the ADMITTED calls only holds a token. Non-trivial = an abusive call "
-            "was refused and a compliant call admitted in the same case.",
+            "was refused and a compliant call admitted in the same case. Stream C19c (concurrent, SAMPLED, ORACLE-ONLY): goroutines call "
+            "AllowRequest of the real code concurrently with the virtual clock held still; directed schedule (global bucket drained to "
+            "its last token, a GetStats poller walking a 60-120k-entry per-IP map keeps the abuser's over-limit request waiting "
+            "inside the per-IP check while a new well-behaved client is served on another goroutine) and random rounds (1 abuser "
+            "on 3-10 goroutines flooding, 2-4 clients within their limits, global burst with 1-3 tokens of slack, 10-29 rounds); "
+            "observed per round: attempted/admitted per (address, connection); oracle: admitted <= global burst, and if fewer than "
+            "that were admitted every request of a client within its own limits was admitted.",
     "assumptions": [
         "ideal arithmetic (float64 rounding modelled, not verified); rates and bursts >= 0; monotone clock; one request at a time",
     ],
@@ -22,7 +29,7 @@ CFG = {
                   "stated on the client's whole request stream via reference buckets), any history, any configuration >= 0, cleanup at arbitrary "
                   "points. C19_facts re-proves on every run that the order extracted from RateLimiter.AllowRequest has the global "
                   "check last; C19_global_first_violates shows the side condition is necessary.",
-    "level_note": "Trusted: Coq kernel; Model/RateLimit.v; astfacts' reading of AllowRequest (order of the .Allow calls, early "
+    "level_note": "The concurrent stream C19c is sampled and oracle-only: it evaluates the interleaving-independent consequences of C19 on the real code's observations; no theorem covers goroutine interleavings (the model processes one request at a time). Trusted: Coq kernel; Model/RateLimit.v; astfacts' reading of AllowRequest (order of the .Allow calls, early "
                   "returns); the clock overlay and the Go driver. Modelled, not verified: float64 rounding; concurrency of the "
                   "three bucket updates inside one AllowRequest (separate locks) is not modelled.",
 }
